@@ -224,6 +224,72 @@ Definition spec_timestamps (c : cfg) (s : Select.st) : list Q :=
   map (fun i => spec_conv_t c (nth (Z.to_nat i) (c_ts c) 0%Q)) (nonzero (Select.tk s)).
 
 (* ------------------------------------------------------------------------------------------------ *)
+(* The sensor cache's time grid                                                                       *)
+
+(* SensorCache(cache, timestamps, dump_period, keep=self._time_keep, ...): every per-dump sensor is computed on the
+   cache's OWN time array and then masked with _time_keep -- numeric sensors by np.interp of the stored samples at
+   those times, categorical ones by aligning their events with those dumps, the virtual sensors (mjd, lst, az / el,
+   ra / dec, u / v / w ...) as functions of those times; select(timerange=) compares against the same array.  Which
+   array each format's __init__ leaves there is re-translated from the source (Generated.sensor_grid_v1 .. v4):
+     h5datav1.py:252   self.sensor.timestamps = self.timestamps          (_time_keep still all ones)         [GProperty]
+     h5datav2.py:380-3 self.sensor.timestamps = LazyIndexer(self._timestamps, keep=slice(num_dumps),
+                                                            transforms=[t -> t + dump / 2 + offset])       [GStoredPrefix]
+     h5datav3.py:327   SensorCache(cache, self._timestamps, ...)   and timestamps = self._timestamps[_time_keep]
+     visdatav4.py:286  SensorCache(sensors, source.timestamps, ...) and timestamps = source.timestamps[_time_keep]
+                                                                                                           [GSameArray]
+   While v1 / v2 partition the data set into scans the cache holds the ESTIMATE first + dump_period * arange(N)
+   whenever the "quick test for uniform spacing" passes [GSynth]; the statements above restore the real times. *)
+Inductive grid :=
+| GProperty
+| GStoredPrefix (co : list (Z * Z))
+| GSameArray
+| GSynth
+| GUnknown.
+
+Definition to_grid (p : Z * list (Z * Z)) : grid :=
+  match fst p with 0 => GProperty | 1 => GStoredPrefix (snd p) | 2 => GSameArray | 3 => GSynth | _ => GUnknown end.
+
+Definition grid_of (f : fmt) : grid :=
+  to_grid (match f with V1 => sensor_grid_v1 | V2 => sensor_grid_v2 | V3 => sensor_grid_v3 | V4 => sensor_grid_v4 end).
+
+(* the stored timestamps without the duplicate final dump: [:num_dumps] *)
+Definition all_ts (c : cfg) : list Q := firstn (Z.to_nat (nT c)) (c_ts c).
+
+Definition grid_ts (g : grid) (c : cfg) : list Q :=
+  match g with
+  | GProperty => timestamps c (Select.init (c_obs c))
+  | GStoredPrefix co => map (fun t => lin3 co t (c_dump c) (c_off c)) (all_ts c)
+  | GSameArray => map (conv_t c) (all_ts c)
+  | GSynth => map (fun i => (conv_t c (hd 0%Q (c_ts c)) + inject_Z i * c_dump c)%Q) (zrange (nT c))
+  | GUnknown => []
+  end.
+
+(* sensor.timestamps[:] after __init__ *)
+Definition cache_ts (c : cfg) : list Q := grid_ts (grid_of (c_fmt c)) c.
+
+(* The array the cache holds WHILE __init__ builds the scans (Generated.construction_grid_v*: code 3 = v1 / v2: the
+   estimate when the "quick test for uniform spacing" |(last - first) / dump + 1 - T| < threshold passes, else the real
+   timestamps; code 2 = v3 / v4: the final array).  Sensors extracted during construction keep that alignment (v2:
+   activity and target of the reference antenna, the labels -> Observation/*; v1 extracts none): finding C01r-F1. *)
+Definition quick_test (c : cfg) (thr : Z * Z) : bool :=
+  let ts := map (conv_t c) (all_ts c) in
+  let e := ((last ts 0 - hd 0 ts) / c_dump c + 1 - inject_Z (nT c))%Q in
+  negb (Qle_bool (coef thr) e) && negb (Qle_bool e (- coef thr)).
+
+Definition construction_ts (c : cfg) : list Q :=
+  let p := match c_fmt c with V1 => construction_grid_v1 | V2 => construction_grid_v2
+                            | V3 => construction_grid_v3 | V4 => construction_grid_v4 end in
+  match fst p with
+  | 3 => if quick_test c (snd p) then grid_ts GSynth c else map (conv_t c) (all_ts c)
+  | 2 => cache_ts c
+  | _ => []
+  end.
+
+(* sensor[name] under selection s, for a sensor whose per-dump values on a time grid are G grid:
+   G = map g for everything evaluated dump by dump (g = the interpolated history, the MJD of the time, ...) *)
+Definition sensor_eval {A} (G : list Q -> list A) (c : cfg) (s : Select.st) : list A := sensor (G (cache_ts c)) s.
+
+(* ------------------------------------------------------------------------------------------------ *)
 (* The state machine                                                                                  *)
 
 Record dstate := { ds_sel : Select.st; ds_ixs : list indexer }.
@@ -370,12 +436,16 @@ Definition of_spec (r : res (list Z * list Z)) : sx :=
   end.
 
 (* what is observed of the data set itself: shape, dumps, channels, positions of corr_products, timestamps and the
-   lengths of timestamps / freqs / corr_products (freqs are channel positions) *)
+   lengths of timestamps / freqs / corr_products (freqs are channel positions), the sensor cache's time grid *)
 Definition of_observe (c : cfg) (s : Select.st) : sx :=
   L [of_Zs (shape s); of_Zs (dumps s); of_Zs (channels s); of_Zs (cp_idx s);
      L [L (map TimeFreq.of_Q (timestamps c s)); L (map TimeFreq.of_Q (spec_timestamps c s))];
      of_Zs [zlen (timestamps c s); zlen (freqs (zrange (nF c)) s); zlen (corr_products c s)];
-     of_Zs (freqs (zrange (nF c)) s); of_Zs (sensor (zrange (nT c)) s)].
+     of_Zs (freqs (zrange (nF c)) s); of_Zs (sensor (zrange (nT c)) s);
+     (* the sensor cache: its time array, the times at which a per-dump sensor is evaluated under the selection
+        (spec: the data set's timestamps, above), and the estimated uniform grid for the record *)
+     L [L (map TimeFreq.of_Q (cache_ts c)); L (map TimeFreq.of_Q (sensor_eval (fun l => l) c s));
+        L (map TimeFreq.of_Q (grid_ts GSynth c))]].
 
 (* the model and, next to it, the acquisition-time selections the spec needs (ghost) *)
 Fixpoint run_wire (c : cfg) (d : dstate) (acq : list (Select.st * kind)) (ops : list op) : list sx :=
